@@ -5,6 +5,8 @@ CONSTANTS
   StepUntil = 2932896
   TailFrom = 2932896
   MaxN = 1000000
+  LeapRule = "gregorian"
+  StartDay = 0
   NumLane = 50000
 INVARIANTS CalAgree CalEnd ClockAgree NumAgree
 CHECK_DEADLOCK FALSE
